@@ -104,17 +104,15 @@ func (c *Cache) Set(key string, value any) {
 // SetWithExpire sets value into c with key and expire with the given value.
 func (c *Cache) SetWithExpire(key string, value any, expire time.Duration) {
 	c.lock.Lock()
-	_, ok := c.data[key]
 	c.data[key] = value
 	c.lruCache.add(key)
 	c.lock.Unlock()
 
+	// SetTimer re-arms the timer of an existing key as well, and unlike MoveTimer it never expires
+	// the key from a detached goroutine (which would delete whatever is set under the key later on)
+	// when the jittered expiry is shorter than the wheel interval.
 	expiry := c.unstableExpiry.AroundDuration(expire)
-	if ok {
-		c.timingWheel.MoveTimer(key, expiry)
-	} else {
-		c.timingWheel.SetTimer(key, value, expiry)
-	}
+	c.timingWheel.SetTimer(key, value, expiry)
 }
 
 // Take returns the item with the given key.
